@@ -28,5 +28,5 @@ Digest == [i \in 1..20 |-> LET wd == h[(i - 1) \div 4 + 1] k == (i - 1) % 4
                            IN IF k = 0 THEN wd[1] \div 256 ELSE IF k = 1 THEN wd[1] % 256
                               ELSE IF k = 2 THEN wd[2] \div 256 ELSE wd[2] % 256]
 Judge == t = 82 => (B64(Digest) = Pairs[kidx].accept
-                    \/ PrintT(<<"REJECTED", Pairs[kidx].id, "accept token differs from base64(SHA-1(key \\o GUID))">>))
+                    \/ PrintT("REJECTED|" \o ToString(Pairs[kidx].id) \o "|accept token differs from base64(SHA-1(key + GUID))"))
 =============================================================================
